@@ -448,3 +448,11 @@ impl Region {
         bounds.1 = bounds.1.max(max);
     }
 }
+
+#[cfg(anydb_verif)]
+impl Region {
+    /// Verification hook: current dirty bounds (min, max) relative to the region start.
+    pub fn verif_dirty_bounds(&self) -> (usize, usize) {
+        *self.0.dirty_bounds.lock()
+    }
+}
